@@ -674,7 +674,7 @@ func c17PairCases(c *lib.Ctx) []c17Pair {
 
 func checkC17Pairs(c *lib.Ctx, only *c17Pair) {
 	r := c.R
-	dir, err := os.MkdirTemp("", "vh-c17pair-")
+	dir, err := lib.MkScratch("vh-c17pair-")
 	if err != nil {
 		r.Fail(lib.Failure{Kind: "tie", Key: "tmpdir", What: err.Error()})
 		return
